@@ -50,6 +50,11 @@ type recWorld struct {
 	division    bool          // this run's receiver also acknowledges in the middle of segments
 	lastAdvance time.Duration // when the peer last sent an ACK that moved its cumulative position
 	lastSeg     *Decoded      // the data segment emitted last (what a router's ICMP error would quote)
+	shut        bool          // the application has shut down its write side
+	frActive    bool          // a fast retransmission was seen and the peer has not yet acknowledged everything sent before it
+	partialCum  int64         // ... the peer's last partial ACK in that episode (-1 none)
+	frRecover   int64         // ... i.e. everything sent before the duplicate ACK that triggered it
+	partialN    int           // ... and how often the segment starting there had been transmitted when it was sent
 }
 
 func (scRecovery) NeutralISS(raw json.RawMessage) json.RawMessage { return neutralWin(raw) }
@@ -74,6 +79,8 @@ func (scRecovery) GenCfg(rng *sim.Rand, tier, prop, variant string) json.RawMess
 		c.ISSPlace = rng.Range(1, 2)
 		c.ISSBack = rng.Intn(20000)
 	}
+	c.Cookie, c.DupSA, c.SAWin = false, false, 0
+	c.WinJitter = rng.Chance(0.3)
 	b, _ := json.Marshal(c)
 	return b
 }
@@ -89,11 +96,18 @@ func (w *recWorld) observe() {
 		if t.HasTS {
 			p.TSRecent = t.TSVal
 		}
-		if t.Flags&codec.FlagSYN != 0 || len(t.Payload) == 0 {
+		// a FIN of its own is a segment like any other (it occupies one sequence number): it counts towards
+		// the initial window and the segments in flight, and is retransmitted under the same rules
+		isFin := t.Flags&codec.FlagFIN != 0 && len(t.Payload) == 0 && t.Flags&codec.FlagSYN == 0
+		if t.Flags&codec.FlagSYN != 0 || (len(t.Payload) == 0 && !isFin) {
 			continue
 		}
 		off := int64(int32(t.Seq - (p.StackISS + 1)))
 		end := off + int64(len(t.Payload))
+		if isFin {
+			end = off + 1
+			w.Probes["fin_segments_seen"]++
+		}
 		sr := w.segs[off]
 		if sr == nil {
 			sr = &segRec{off: off, end: end}
@@ -105,6 +119,7 @@ func (w *recWorld) observe() {
 			if w.inAdvance {
 				// retransmission by timeout: never sooner than 200 ms after the previous transmission
 				w.rtoSeen = true
+				w.frActive = false // a timeout ends the fast-recovery episode (and moves the recover mark)
 				w.Probes["rto_retransmissions"]++
 				if d.F.At-prev < 200*time.Millisecond && w.Probes["fast_retransmits"] == 0 {
 					w.Fail("rto-too-early", "", "segment at stream offset %d retransmitted by timeout %v after its previous transmission (minimum 200 ms)", off, d.F.At-prev)
@@ -118,8 +133,10 @@ func (w *recWorld) observe() {
 			sr.end = end
 		}
 		sr.times = append(sr.times, d.F.At)
-		w.inbox = append(w.inbox, d)
-		w.lastSeg = d
+		if !isFin {
+			w.inbox = append(w.inbox, d)
+			w.lastSeg = d
+		}
 		// (3) before the first ACK at most 10 segments; Reno: in flight <= 10 + acked + dup ACKs
 		inflight := 0
 		for _, o := range w.order {
@@ -199,6 +216,7 @@ func (w *recWorld) sendAck() {
 	// is beyond it, three duplicates must trigger a fast retransmission again
 	eligible := third && w.Probes["fast_retransmits"] == 0 && (w.recover == 0 && !w.rtoSeen || w.rtoSeen && w.cum >= w.recover)
 	w.Tracef("peer ack off=%d dup=%v repeats=%d eligible=%v recover=%d sackopts=%d", w.cum, isDup, w.repeats, eligible, w.recover, len(opts))
+	sentBefore := w.maxSent() // what a recovery triggered by this very ACK has to repair
 	p.Send(codec.FlagACK, p.SndNxt, p.RcvNxt, w.win, opts, nil)
 	w.acksSent++
 	w.firstAck = true
@@ -218,10 +236,21 @@ func (w *recWorld) sendAck() {
 		} else {
 			w.Probes["fast_retransmits"]++
 			w.recover = w.maxSent()
+			w.frActive, w.partialCum, w.frRecover = true, -1, sentBefore
 		}
 	} else if third && w.Probes["retransmissions"] > before {
 		w.Probes["fast_retransmits"]++
 		w.recover = w.maxSent()
+		w.frActive, w.partialCum, w.frRecover = true, -1, sentBefore
+	}
+	// inside a fast-recovery episode: after a partial ACK, three duplicates of it cannot leave the segment
+	// it points at untransmitted (it goes out with the partial ACK or, at the latest, with a duplicate)
+	if third && w.frActive && w.partialCum == w.cum && w.Viol == nil {
+		if sr := w.segs[w.cum]; sr != nil && len(sr.times) <= w.partialN {
+			w.Fail("no-retransmit-after-partial-ack", "", "fast recovery: the peer acknowledged up to stream offset %d (short of %d, everything sent before the recovery began) and repeated that ACK three times; the segment starting there was not retransmitted", w.cum, w.frRecover)
+		} else if sr != nil {
+			w.Probes["partial_ack_then_three_duplicates"]++
+		}
 	}
 }
 
@@ -230,6 +259,18 @@ func (w *recWorld) sendAck() {
 func (w *recWorld) ackTo(to int64) {
 	if to > w.cum {
 		w.cum = to
+		if w.cfg.WinJitter {
+			w.win ^= 0x0040 // every advancing ACK also changes the advertised window a little
+		}
+		if w.frActive {
+			if w.cum >= w.frRecover {
+				w.frActive = false
+			} else if sr := w.segs[w.cum]; sr != nil {
+				w.partialCum, w.partialN = w.cum, len(sr.times)
+			} else {
+				w.partialCum = -1
+			}
+		}
 		w.lastAdvance = time.Since(w.T0) // an ACK that advances restarts the retransmission timer
 		for _, o := range w.order {
 			if s := w.segs[o]; !s.acked && s.end <= w.cum {
@@ -308,6 +349,15 @@ func (w *recWorld) apply(s Step) {
 			w.win ^= 0x0100
 			w.lastAckNo = -1
 			w.sendAck()
+		}
+	case "shutw":
+		// the application is done writing: the FIN queues up behind the data like one more segment
+		if !w.shut {
+			w.shut = true
+			w.ep.Shutdown(tcpip.ShutdownWrite)
+			w.Settle()
+			w.observe()
+			w.Probes["write_side_shut_down"]++
 		}
 	case "bigptb":
 		// a router reports "packet too big" with an MTU that is NOT below the one in use (a duplicate, a
@@ -419,7 +469,12 @@ func max64(a, b int64) int64 {
 
 func (w *recWorld) next() Step {
 	r := w.Rng
-	switch r.Pick(4, 6, 10, 2, 1, 4, 2, 1) {
+	switch r.Pick(4, 6, 10, 2, 1, 4, 2, 1, 1) {
+	case 8:
+		if w.written > 0 && r.Chance(0.5) {
+			return Step{Op: "shutw"}
+		}
+		return Step{Op: "write", C: r.Range(1, 12)}
 	case 7:
 		return Step{Op: "bigptb", A: r.Intn(3)}
 	case 0:
